@@ -89,3 +89,87 @@ func corrBodies(ctx *Ctx, n int) error {
 	}
 	return nil
 }
+
+// corrRespDefs: codegen.GenerateResponseDefinitions vs Model/RespDefs.lean — which definitions of an operation are a
+// component response. Seeded response maps over few status codes and few component responses (so that one component is
+// referred to by several codes), with inline responses in between.
+func corrRespDefs(ctx *Ctx, n int) error {
+	comps := []string{"NotFound", "Denied", "Err"}
+	spec := &openapi3.T{OpenAPI: "3.0.3", Info: &openapi3.Info{Title: "t", Version: "1"}, Paths: openapi3.NewPaths(), Components: &openapi3.Components{Responses: openapi3.ResponseBodies{}}}
+	desc := "d"
+	for _, cname := range comps {
+		spec.Components.Responses[cname] = &openapi3.ResponseRef{Value: &openapi3.Response{Description: &desc, Content: openapi3.Content{"application/json": &openapi3.MediaType{Schema: &openapi3.SchemaRef{Value: &openapi3.Schema{Type: &openapi3.Types{"string"}}}}}}}
+	}
+	codegen.SetGlobalStateSpec(spec)
+	defer codegen.SetGlobalStateSpec(nil)
+	codes := []string{"200", "201", "400", "401", "403", "404", "4XX", "500", "default"}
+	for i := 0; i < n; i++ {
+		r := ctx.Rng.Fork()
+		k := 1 + r.Intn(6)
+		m := map[string]*openapi3.ResponseRef{}
+		refOf := map[string]string{}
+		for _, pi := range r.Perm(len(codes))[:k] {
+			code := codes[pi]
+			if r.Chance(65) {
+				cname := comps[r.Intn(len(comps))]
+				m[code] = &openapi3.ResponseRef{Ref: "#/components/responses/" + cname, Value: spec.Components.Responses[cname].Value}
+				refOf[code] = cname
+			} else {
+				m[code] = &openapi3.ResponseRef{Value: &openapi3.Response{Description: &desc}}
+			}
+		}
+		var sorted []string
+		for c := range m {
+			sorted = append(sorted, c)
+		}
+		sort.Strings(sorted)
+		enc := []interface{}{}
+		for _, c := range sorted {
+			enc = append(enc, [][]int{bytesOf(c), bytesOf(refOf[c])})
+		}
+		defs, err := codegen.GenerateResponseDefinitions("Op", m)
+		c := J{"responses": refOf, "codes": sorted}
+		ctx.Res.Eval(c, len(refOf) > 1)
+		ctx.Res.Count("corr:response-definitions")
+		if err != nil {
+			ctx.Res.Violate("response-definitions:error:"+errorClass(err.Error()), "GenerateResponseDefinitions fails: "+err.Error(), c)
+			continue
+		}
+		var mo [][][]int
+		if e := ctx.Model(J{"fn": "respDefs", "responses": enc}, &mo); e != nil {
+			return e
+		}
+		var impl, model []string
+		used := map[string]int{}
+		for _, d := range defs {
+			impl = append(impl, d.StatusCode+"="+d.Ref)
+			if d.Ref != "" {
+				used[d.Ref]++
+				ctx.Res.Count("corr:response-definitions:component")
+			} else if refOf[d.StatusCode] != "" {
+				ctx.Res.Count("corr:response-definitions:copy")
+			}
+		}
+		for _, row := range mo {
+			model = append(model, strOfBytes(row[0])+"="+strOfBytes(row[1]))
+		}
+		if fmt.Sprint(impl) != fmt.Sprint(model) {
+			ctx.Res.Disagree("CORR GenerateResponseDefinitions (Ref) vs RespDefs.respDefs", c, model, impl)
+		}
+		// the statement on the real result
+		for ref, cnt := range used {
+			if cnt > 1 {
+				ctx.Res.Violate("response-definitions:component-twice", fmt.Sprintf("%d definitions of one operation are the component response %s (two cases of one type in the type switch)", cnt, ref), c)
+			}
+		}
+		for _, cname := range refOf {
+			if used[cname] == 0 {
+				ctx.Res.Violate("response-definitions:component-unused", fmt.Sprintf("responses refer to the component %s, no definition is that component", cname), c)
+			}
+		}
+		if len(defs) != len(sorted) {
+			ctx.Res.Violate("response-definitions:count", fmt.Sprintf("%d status codes, %d definitions", len(sorted), len(defs)), c)
+		}
+	}
+	return nil
+}
